@@ -155,6 +155,9 @@ def replay_registry(h):
     for s_ in h['steps']:
         if s_['op'] == 'evaluate':
             first.setdefault(s_['type'], (s_['code'], s_['lay']))
+        elif s_['op'] == 'evaluate2':
+            first.setdefault(s_['type'], (s_['code'], 'rows'))
+            first.setdefault(s_['type2'], (s_['code2'], 'rows'))
         else:
             first.setdefault(s_['type'], None)
     reg = {t: (c if c is not None else (0, 'rows')) for t, c in first.items()}
@@ -165,6 +168,23 @@ def replay_registry(h):
         if s_['op'] == 'register':
             reg[s_['type']] = (s_['code'], s_['lay'])
             d.set_random_number_generators({t: (gen(*c), f'series {c}') for t, c in reg.items()})
+            continue
+        if s_['op'] == 'evaluate2':
+            # the first type's generator hands back an array of INTEGERS, the second one halves (doubled in the formula)
+            ta, tb = sorted([s_['type'], s_['type2']])
+            for t_ in (ta, tb):
+                reg.setdefault(t_, (s_['code'] if t_ == s_['type'] else s_['code2'], 'rows'))
+            ga, gb = gen(reg[ta][0]), gen(reg[tb][0])
+            d.set_random_number_generators({ta: (lambda n_, r_, g_=ga: g_(n_, r_).astype(int), 'integers'),
+                                            tb: (lambda n_, r_, g_=gb: g_(n_, r_) / 2.0, 'halves')})
+            f2 = ex.MonteCarlo((ex.bioDraws('za', ta) + 2 * ex.bioDraws('zb', tb)) * ex.Variable('x'))
+            got = [float(v) for v in f2.get_value_c(database=d, number_of_draws=s_['R'], prepare_ids=True)]
+            d.set_random_number_generators({t: (gen(*c), f'series {c}') for t, c in reg.items()})
+            n += 1
+            want = [w / s_['R'] for w in s_['want']]
+            if any(abs(g - w) > 1e-12 * max(1.0, abs(w)) for g, w in zip(got, want)) or len(got) != len(want):
+                out.append(dict(what='two draw variables, one with integer and one with fractional series', step=k, got=got, want=want))
+                break
             continue
         f = ex.MonteCarlo(ex.bioDraws('z', s_['type']) * ex.Variable('x'))
         n += 1
@@ -180,6 +200,16 @@ def replay_registry(h):
         if refused:
             continue
         want = [w / s_['R'] for w in s_['want']]
+        if k % 2 == 0:
+            # the same formula handed to an estimation object NEXT TO a formula without draws (listed after it)
+            import biogeme.biogeme as bio
+            bg = bio.BIOGEME(d, {'first': ex.MonteCarlo(ex.bioDraws('z', s_['type']) * ex.Variable('x')), 'second': 2 * ex.Variable('x')},
+                             number_of_draws=s_['R'])
+            sim = [float(v) for v in bg.simulate({})['first']]
+            n += 1
+            if any(not (abs(g - w) <= 1e-12 * max(1.0, abs(w))) for g, w in zip(sim, want)) or len(sim) != len(want):
+                out.append(dict(what='Monte-Carlo formula simulated next to a formula without draws', step=k, got=sim, want=want))
+                break
         if any(abs(g - w) > 1e-12 * max(1.0, abs(w)) for g, w in zip(got, want)) or len(got) != len(want):
             out.append(dict(what='Monte-Carlo mean after a change of the registered generator', step=k, got=got, want=want,
                             history=[(t['op'], t['type'], t['code'], t['lay'], t['R']) for t in h['steps'][: k + 1]]))
@@ -295,6 +325,10 @@ def body(chk: check.Check):
     hs = [h for h in rres.emitted if isinstance(h, dict) and 'steps' in h]
     if not hs:
         raise tlc.MachineryError('DrawRegistry emitted no history')
+    chk.extra['registry_histories_generated'] = len(hs)
+    cap = 2500 if quick else 12000
+    if len(hs) > cap:      # a regular sample of the histories
+        hs = hs[:: -(-len(hs) // cap)]
     for h, (st, val) in zip(hs, par.pmap(replay_registry, hs, chunk=25, timeout=900)):
         chk.replayed += 1
         if st != 'ok':
